@@ -47,7 +47,7 @@ def required_cells(tier):
             "class:E", "class:R", "resolved-set-compared", "table-compared", "header-dir-outside-root",
             "outside-header-read", "include-depth>=40", "include-depth>=70", "headers-differing-in-case",
             "guard-undefined-then-reincluded", "directory-named-like-header-on-search-path", "include-spelled-with-dotdot",
-            "dotdot-include-resolved-through-search-directory", "include-spelled-with-dotdot-after-directory-link", "directory-named-by-I-and-isystem", "header-name-with-blank:angle", "header-name-with-blank:quote", "translation-unit-outside-root-includes-member-headers", "same-named-file-in-root-off-every-search-path", "forced-include-without-recognised-extension", "quote-include-inside-header-opened-through-file-link", "directory-named-twice-by-I", "environment:CPATH-names-header-directories",
+            "dotdot-include-resolved-through-search-directory", "include-spelled-with-dotdot-after-directory-link", "directory-named-by-I-and-isystem", "unguarded-header-forced-twice", "same-file-compiled-twice-with-search-order-reversed", "header-name-with-blank:angle", "header-name-with-blank:quote", "translation-unit-outside-root-includes-member-headers", "same-named-file-in-root-off-every-search-path", "forced-include-without-recognised-extension", "quote-include-inside-header-opened-through-file-link", "directory-named-twice-by-I", "environment:CPATH-names-header-directories",
             "headers-with-unknown-or-no-extension", "header-names-outside-ascii"]
 
 
@@ -250,6 +250,10 @@ def check_case(ctx, case, base, cls, extra_cells=()):
                         cells.add("forced-include-macro-tested")
     if any(tu["file"].startswith("@out/") for tu in case["tus"]):
         cells.add("translation-unit-outside-root-includes-member-headers")
+    if case.get("forced_twice"):
+        cells.add("unguarded-header-forced-twice")
+    if case.get("reordered_twin"):
+        cells.add("same-file-compiled-twice-with-search-order-reversed")
     if any(r.startswith("@out/") for r in case["files"]):
         cells.add("header-dir-outside-root")
     if any(r.endswith("/CaseP.h") for r in case["files"]):
@@ -367,6 +371,23 @@ def run_shard(ctx):
         case = forest.gen(rng, outside=rng.random() < 0.4, deep=[20, 40, 70, 100][(i // 16) % 4] if i % 16 == 5 else 0,
                           casepair=(i % 8 == 3), reguard=(i % 8 == 6), dirdecoy=(i % 4 == 1), updir=(i % 4 == 2),
                           findable=(i % 4 != 0), oddnames=(i % 8 == 7), dirlinks=(i % 8 == 4), dupdirs=(i % 8 in (0, 5)), links=("side" if i % 8 == 2 else False), builtin_decoy=(i % 8 == 1), outside_tu=(i % 8 == 3))      # (3 in 4: every header name is on every command's path; else ~60% are rejected by gcc)
+        if i % 8 == 6 and "inc/pre.h" in case["files"]:
+            # the forced header is named twice on every command that forces it; it has no guard and changes the macro
+            # state on its second reading -- which a compiler performs
+            case["files"]["inc/pre.h"] = [["code"], ["define", "FROM_PRE", "1"],
+                                          ["chain", [["ifdef", "PRE_SEEN", [["code"], ["define", "PRE_TWICE", None]]], ["else", None, [["define", "PRE_SEEN", None]]]]]]
+            for tu in case["tus"]:
+                if tu["includes"]:
+                    tu["includes"] = [tu["includes"][0], tu["includes"][0]]
+                    case["forced_twice"] = True
+                case["files"][tu["file"]] = case["files"][tu["file"]] + [["chain", [["ifdef", "PRE_TWICE", [["code"]]], ["else", None, [["code"]]]]]]
+        if i % 8 == 5 and len(case["tus"]) >= 1:
+            # the first command once more for the same platform, with its search directories in the opposite order (and
+            # its forced includes too): two different commands although they hold the same options
+            tu0 = case["tus"][0]
+            if len(tu0["search"]) >= 2:
+                case["tus"].append(dict(tu0, search=list(reversed(tu0["search"])), includes=list(reversed(tu0["includes"]))))
+                case["reordered_twin"] = True
         if ctx.mine(i):
             check_case(ctx, case, base, "R")
     shutil.rmtree(base, ignore_errors=True)
